@@ -426,7 +426,7 @@ func (u *Unit) project(term string, ty types.Type, path []Step) string {
 	for _, s := range path {
 		if s.Field >= 0 {
 			sn := u.em.sortOf(ty)
-			term = fmt.Sprintf("(%s %s)", u.em.fieldSel(sn, s.Name, s.Field), term)
+			term = u.em.sel(sn, s.Name, s.Field, term)
 		} else {
 			term = fmt.Sprintf("(select %s %s)", term, s.Idx)
 		}
@@ -445,7 +445,7 @@ func (u *Unit) updatePath(term string, ty types.Type, path []Step, v string) str
 		sn := u.em.sortOf(ty)
 		var fs []string
 		for i := 0; i < st.NumFields(); i++ {
-			sel := fmt.Sprintf("(%s %s)", u.em.fieldSel(sn, st.Field(i).Name(), i), term)
+			sel := u.em.sel(sn, st.Field(i).Name(), i, term)
 			if i == s.Field {
 				fs = append(fs, u.updatePath(sel, s.Ty, path[1:], v))
 			} else {
@@ -1317,7 +1317,7 @@ func (u *Unit) instr(f *Frame, st *State, ins ssa.Instruction) {
 		stt := x.X.Type().Underlying().(*types.Struct)
 		fld := stt.Field(x.Field)
 		sn := u.em.sortOf(x.X.Type())
-		f.vals[x] = Val{T: fmt.Sprintf("(%s %s)", u.em.fieldSel(sn, fld.Name(), x.Field), s.T), Ty: x.Type()}
+		f.vals[x] = Val{T: u.em.sel(sn, fld.Name(), x.Field, s.T), Ty: x.Type()}
 	case *ssa.IndexAddr:
 		u.indexAddr(f, st, x)
 	case *ssa.Index:
@@ -1863,9 +1863,15 @@ func (u *Unit) divmod(f *Frame, st *State, a, b string, ty types.Type, wantMod b
 	u.em.pre("(assert (forall ((a Int) (b Int)) (! (=> (and (>= a 0) (> b 0)) (and (= (umod (+ a b) b) (umod a b)) (= (udiv (+ a b) b) (+ (udiv a b) 1)))) :pattern ((umod (+ a b) b)) :pattern ((udiv (+ a b) b)))))")
 	u.em.pre("(assert (forall ((k Int) (b Int) (c Int)) (! (=> (and (>= k 0) (<= 0 c) (< c b)) (and (= (sdiv (+ (* k b) c) b) k) (= (smod (+ (* k b) c) b) c))) :pattern ((sdiv (+ (* k b) c) b)) :pattern ((smod (+ (* k b) c) b)))))")
 	u.em.pre("(assert (forall ((k Int) (b Int) (c Int)) (! (=> (and (>= k 0) (<= 0 c) (< c b)) (and (= (udiv (+ (* k b) c) b) k) (= (umod (+ (* k b) c) b) c))) :pattern ((udiv (+ (* k b) c) b)) :pattern ((umod (+ (* k b) c) b)))))")
+	u.em.pre("(assert (forall ((k Int) (b Int)) (! (=> (and (>= k 0) (> b 0)) (and (= (smod (* k b) b) 0) (= (sdiv (* k b) b) k))) :pattern ((smod (* k b) b)) :pattern ((sdiv (* k b) b)))))")
+	u.em.pre("(assert (forall ((a Int) (b Int)) (! (=> (and (>= a 0) (> b 0)) (and (= (smod (+ a b) b) (smod a b)) (= (sdiv (+ a b) b) (+ (sdiv a b) 1)))) :pattern ((smod (+ a b) b)) :pattern ((sdiv (+ a b) b)))))")
+	// unsigned and signed division agree on non-negative operands (both are floor division there)
+	u.em.pre("(assert (forall ((a Int) (b Int)) (! (=> (and (>= a 0) (> b 0)) (and (= (udiv a b) (sdiv a b)) (= (umod a b) (smod a b)))) :pattern ((udiv a b)) :pattern ((umod a b)))))")
 	var q, r string
 	if isUnsigned(ty) {
-		q, r = fmt.Sprintf("(udiv %s %s)", a, b), fmt.Sprintf("(umod %s %s)", a, b)
+		// operands of unsigned division are non-negative, where truncated and floor division agree:
+		// the same function symbols as for signed division (congruence between code and int-valued specs)
+		q, r = fmt.Sprintf("(sdiv %s %s)", a, b), fmt.Sprintf("(smod %s %s)", a, b)
 	} else {
 		q, r = fmt.Sprintf("(sdiv %s %s)", a, b), fmt.Sprintf("(smod %s %s)", a, b)
 	}
